@@ -22,14 +22,14 @@ using namespace FEAT;
 #endif
 typedef C15_DT DT;
 
-template<typename Shape_> using MeshT = Geometry::ConformalMesh<Shape_, Shape_::dimension, DT>;
-template<typename Shape_> using TrafoT = Trafo::Standard::Mapping<MeshT<Shape_>>;
+template<typename Shape_, int world_dim_ = Shape_::dimension> using MeshT = Geometry::ConformalMesh<Shape_, world_dim_, DT>;
+template<typename Shape_, int world_dim_ = Shape_::dimension> using TrafoT = Trafo::Standard::Mapping<MeshT<Shape_, world_dim_>>;
 
 // trafo evaluator of one shape with everything it can compute
-template<typename Shape_>
-void inst_trafo(TrafoT<Shape_>& trafo)
+template<typename Shape_, int world_dim_ = Shape_::dimension>
+void inst_trafo(TrafoT<Shape_, world_dim_>& trafo)
 {
-  typedef typename TrafoT<Shape_>::template Evaluator<Shape_, DT>::Type TrafoEval;
+  typedef typename TrafoT<Shape_, world_dim_>::template Evaluator<Shape_, DT>::Type TrafoEval;
   static constexpr TrafoTags cfg = TrafoEval::eval_caps;
   typename TrafoEval::template ConfigTraits<cfg>::EvalDataType trafo_data;
   typename TrafoEval::DomainPointType dom_point;
@@ -41,15 +41,25 @@ void inst_trafo(TrafoT<Shape_>& trafo)
   volatile DT c = Shape::ReferenceCell<Shape_>::template vertex<DT>(0, 0); (void)c;
 }
 
-// space evaluator with all capabilities + node functionals + dof mapping
-template<typename Space_>
+// the capability set a family declares: parametric families state it as their namespace-level
+// ref_caps constant (handed to ParametricEvaluator), non-parametric ones as Evaluator::eval_caps
+constexpr SpaceTags caps_to_config(SpaceTags caps)
+{
+  return
+    (*(caps & (SpaceTags::value | SpaceTags::ref_value)) ? SpaceTags::value : SpaceTags::none) |
+    (*(caps & (SpaceTags::grad | SpaceTags::ref_grad)) ? SpaceTags::grad : SpaceTags::none) |
+    (*(caps & (SpaceTags::hess | SpaceTags::ref_hess)) ? SpaceTags::hess : SpaceTags::none);
+}
+
+// space evaluator with all declared capabilities + dof mapping
+template<SpaceTags caps_, typename Space_>
 void inst_space(Space_& space)
 {
   typedef typename Space_::TrafoType TrafoType;
   typedef typename TrafoType::ShapeType ShapeType;
   typedef typename TrafoType::template Evaluator<ShapeType, DT>::Type TrafoEval;
   typedef typename Space_::template Evaluator<TrafoEval>::Type SpaceEval;
-  static constexpr SpaceTags cfg = SpaceEval::eval_caps & (SpaceTags::value | SpaceTags::grad | SpaceTags::hess);
+  static constexpr SpaceTags cfg = caps_to_config(caps_ == SpaceTags::none ? SpaceEval::eval_caps : caps_);
   typedef typename SpaceEval::template ConfigTraits<cfg> SpaceCfg;
   static constexpr TrafoTags tcfg = SpaceCfg::trafo_config | TrafoTags::jac_det;
   typename TrafoEval::template ConfigTraits<tcfg>::EvalDataType trafo_data;
@@ -71,56 +81,75 @@ void inst_space(Space_& space)
   dof_mapping.finish();
 }
 
-template<template<typename> class Element_, typename Shape_>
+template<template<typename> class Element_, SpaceTags caps_, typename Shape_>
 void inst_elem(TrafoT<Shape_>& trafo)
 {
   Element_<TrafoT<Shape_>> space(trafo);
-  inst_space(space);
+  inst_space<caps_>(space);
 }
 
-template<typename Variant_, typename Shape_>
+template<typename Variant_, SpaceTags caps_, typename Shape_>
 void inst_disc(TrafoT<Shape_>& trafo)
 {
   Space::Discontinuous::Element<TrafoT<Shape_>, Variant_> space(trafo);
-  inst_space(space);
+  inst_space<caps_>(space);
+}
+
+// reference cell tables used by the checks (folded from the facts, never executed)
+template<typename Shape_, int cell_dim_>
+void inst_fim()
+{
+  volatile int i = Geometry::Intern::FaceIndexMapping<Shape_, cell_dim_, 0>::map(0, 0); (void)i;
 }
 
 typedef Shape::Simplex<1> S1; typedef Shape::Simplex<2> S2; typedef Shape::Simplex<3> S3;
 typedef Shape::Hypercube<1> H1; typedef Shape::Hypercube<2> H2; typedef Shape::Hypercube<3> H3;
+namespace SP = FEAT::Space;
+static constexpr SpaceTags NP = SpaceTags::none; // non-parametric: use Evaluator::eval_caps
 
-void inst_all(TrafoT<S1>& ts1, TrafoT<S2>& ts2, TrafoT<S3>& ts3, TrafoT<H1>& th1, TrafoT<H2>& th2, TrafoT<H3>& th3)
+void inst_all(TrafoT<S1>& ts1, TrafoT<S2>& ts2, TrafoT<S3>& ts3, TrafoT<H1>& th1, TrafoT<H2>& th2, TrafoT<H3>& th3,
+  TrafoT<S1,2>& ts12, TrafoT<S2,3>& ts23, TrafoT<H1,2>& th12, TrafoT<H2,3>& th23)
 {
   inst_trafo<S1>(ts1); inst_trafo<S2>(ts2); inst_trafo<S3>(ts3);
   inst_trafo<H1>(th1); inst_trafo<H2>(th2); inst_trafo<H3>(th3);
+  // facet trafos embedded in a higher-dimensional world (trace assembly, node functionals)
+  inst_trafo<S1,2>(ts12); inst_trafo<S2,3>(ts23); inst_trafo<H1,2>(th12); inst_trafo<H2,3>(th23);
 
-  inst_elem<Space::Lagrange1::Element, S2>(ts2); inst_elem<Space::Lagrange1::Element, S3>(ts3);
-  inst_elem<Space::Lagrange1::Element, H1>(th1); inst_elem<Space::Lagrange1::Element, H2>(th2); inst_elem<Space::Lagrange1::Element, H3>(th3);
+  inst_fim<S2,1>(); inst_fim<S3,1>(); inst_fim<S3,2>(); inst_fim<H2,1>(); inst_fim<H3,1>(); inst_fim<H3,2>();
 
-  inst_elem<Space::Lagrange2::Element, S2>(ts2); inst_elem<Space::Lagrange2::Element, S3>(ts3);
-  inst_elem<Space::Lagrange2::Element, H1>(th1); inst_elem<Space::Lagrange2::Element, H2>(th2); inst_elem<Space::Lagrange2::Element, H3>(th3);
+  inst_elem<SP::Lagrange1::Element, SP::Lagrange1::ref_caps, S2>(ts2); inst_elem<SP::Lagrange1::Element, SP::Lagrange1::ref_caps, S3>(ts3);
+  inst_elem<SP::Lagrange1::Element, SP::Lagrange1::ref_caps, H1>(th1); inst_elem<SP::Lagrange1::Element, SP::Lagrange1::ref_caps, H2>(th2);
+  inst_elem<SP::Lagrange1::Element, SP::Lagrange1::ref_caps, H3>(th3);
 
-  inst_elem<Space::Lagrange3::Element, S2>(ts2); inst_elem<Space::Lagrange3::Element, S3>(ts3);
-  inst_elem<Space::Lagrange3::Element, H1>(th1); inst_elem<Space::Lagrange3::Element, H2>(th2); inst_elem<Space::Lagrange3::Element, H3>(th3);
+  inst_elem<SP::Lagrange2::Element, SP::Lagrange2::ref_caps, S2>(ts2); inst_elem<SP::Lagrange2::Element, SP::Lagrange2::ref_caps, S3>(ts3);
+  inst_elem<SP::Lagrange2::Element, SP::Lagrange2::ref_caps, H1>(th1); inst_elem<SP::Lagrange2::Element, SP::Lagrange2::ref_caps, H2>(th2);
+  inst_elem<SP::Lagrange2::Element, SP::Lagrange2::ref_caps, H3>(th3);
 
-  inst_disc<Space::Discontinuous::Variant::StdPolyP<0>, S2>(ts2); inst_disc<Space::Discontinuous::Variant::StdPolyP<0>, S3>(ts3);
-  inst_disc<Space::Discontinuous::Variant::StdPolyP<0>, H1>(th1); inst_disc<Space::Discontinuous::Variant::StdPolyP<0>, H2>(th2); inst_disc<Space::Discontinuous::Variant::StdPolyP<0>, H3>(th3);
-  inst_disc<Space::Discontinuous::Variant::StdPolyP<1>, S2>(ts2); inst_disc<Space::Discontinuous::Variant::StdPolyP<1>, S3>(ts3);
-  inst_disc<Space::Discontinuous::Variant::StdPolyP<1>, H1>(th1); inst_disc<Space::Discontinuous::Variant::StdPolyP<1>, H2>(th2); inst_disc<Space::Discontinuous::Variant::StdPolyP<1>, H3>(th3);
+  inst_elem<SP::Lagrange3::Element, SP::Lagrange3::ref_caps, S2>(ts2); inst_elem<SP::Lagrange3::Element, SP::Lagrange3::ref_caps_3d, S3>(ts3);
+  inst_elem<SP::Lagrange3::Element, SP::Lagrange3::ref_caps, H1>(th1); inst_elem<SP::Lagrange3::Element, SP::Lagrange3::ref_caps, H2>(th2);
+  inst_elem<SP::Lagrange3::Element, SP::Lagrange3::ref_caps, H3>(th3);
 
-  inst_elem<Space::CroRavRanTur::Element, S2>(ts2); inst_elem<Space::CroRavRanTur::Element, S3>(ts3);
-  inst_elem<Space::CroRavRanTur::Element, H2>(th2); inst_elem<Space::CroRavRanTur::Element, H3>(th3);
+  typedef SP::Discontinuous::Variant::StdPolyP<0> P0; typedef SP::Discontinuous::Variant::StdPolyP<1> P1;
+  inst_disc<P0, NP, S2>(ts2); inst_disc<P0, NP, S3>(ts3); inst_disc<P0, NP, H1>(th1); inst_disc<P0, NP, H2>(th2); inst_disc<P0, NP, H3>(th3);
+  inst_disc<P1, SP::Discontinuous::ref_caps_p1, S2>(ts2); inst_disc<P1, SP::Discontinuous::ref_caps_p1, S3>(ts3);
+  inst_disc<P1, NP, H1>(th1); inst_disc<P1, NP, H2>(th2); inst_disc<P1, NP, H3>(th3);
 
-  inst_elem<Space::Bernstein2::Element, H1>(th1); inst_elem<Space::Bernstein2::Element, H2>(th2); inst_elem<Space::Bernstein2::Element, H3>(th3);
+  inst_elem<SP::CroRavRanTur::Element, SP::CroRavRanTur::ref_caps, S2>(ts2); inst_elem<SP::CroRavRanTur::Element, SP::CroRavRanTur::ref_caps, S3>(ts3);
+  inst_elem<SP::CroRavRanTur::Element, NP, H2>(th2); inst_elem<SP::CroRavRanTur::Element, NP, H3>(th3);
 
-  inst_elem<Space::P2Bubble::Element, S2>(ts2);
+  inst_elem<SP::Bernstein2::Element, SP::Bernstein2::ref_caps, H1>(th1); inst_elem<SP::Bernstein2::Element, SP::Bernstein2::ref_caps, H2>(th2);
+  inst_elem<SP::Bernstein2::Element, SP::Bernstein2::ref_caps, H3>(th3);
 
-  inst_elem<Space::Hermite3::Element, H1>(th1); inst_elem<Space::Hermite3::Element, H2>(th2); inst_elem<Space::Hermite3::Element, S2>(ts2);
+  inst_elem<SP::P2Bubble::Element, SP::P2Bubble::ref_caps, S2>(ts2);
 
-  inst_elem<Space::Argyris::Element, S2>(ts2);
+  inst_elem<SP::Hermite3::Element, SP::Hermite3::ref_caps, H1>(th1); inst_elem<SP::Hermite3::Element, SP::Hermite3::ref_caps, H2>(th2);
+  inst_elem<SP::Hermite3::Element, SP::Hermite3::ref_caps, S2>(ts2);
 
-  inst_elem<Space::BognerFoxSchmit::Element, H1>(th1); inst_elem<Space::BognerFoxSchmit::Element, H2>(th2);
+  inst_elem<SP::Argyris::Element, NP, S2>(ts2);
 
-  inst_elem<Space::CaiDouSanSheYe::Element, H2>(th2);
+  inst_elem<SP::BognerFoxSchmit::Element, SP::BognerFoxSchmit::ref_caps, H1>(th1); inst_elem<SP::BognerFoxSchmit::Element, SP::BognerFoxSchmit::ref_caps, H2>(th2);
 
-  inst_elem<Space::Q1TBNP::Element, H2>(th2); inst_elem<Space::Q1TBNP::Element, H3>(th3);
+  inst_elem<SP::CaiDouSanSheYe::Element, SP::CaiDouSanSheYe::ref_caps, H2>(th2);
+
+  inst_elem<SP::Q1TBNP::Element, NP, H2>(th2); inst_elem<SP::Q1TBNP::Element, NP, H3>(th3);
 }
